@@ -5547,6 +5547,21 @@ class Arc(Curve):
         self.prx.matrix_transform(rotate_matrix)
         self.pry.matrix_transform(rotate_matrix)
         self.sweep = Angle.degrees(delta).as_radians
+        for value in (
+            self.center.x,
+            self.center.y,
+            self.prx.x,
+            self.prx.y,
+            self.pry.x,
+            self.pry.y,
+            self.sweep,
+        ):
+            if value != value or value in (float("inf"), float("-inf")):
+                # Radii or a chord whose squares overflow: no finite ellipse could be computed.
+                raise ValueError(
+                    "Arc parameters out of range: %s, %s from %s to %s"
+                    % (rx, ry, start, end)
+                )
 
     def as_quad_curves(self, arc_required=None):
         if arc_required is None:
